@@ -54,6 +54,9 @@ var (
 	senders4 = [][]byte{[]byte(netsim.B4), ip4(10, 0, 0, 9), ip4(192, 168, 7, 7)}
 	senders6 = [][]byte{[]byte(netsim.B6), ip6(0xfd00, 9), ip6(0x2001, 5)}
 	portPool = []uint16{53, 4000, 40000, 65535, 7}
+	// senders of interleaved fragment trains that share an IP identification: addresses
+	// that are octet permutations, octet shifts and single-bit neighbours of one another
+	twinPool4 = [][]byte{ip4(10, 0, 1, 2), ip4(10, 0, 2, 1), []byte(netsim.B4), ip4(10, 0, 2, 0), ip4(10, 1, 0, 2), ip4(10, 0, 3, 1), ip4(192, 168, 7, 7), ip4(192, 168, 7, 6)}
 )
 
 func locals(fam int) [][]byte {
@@ -164,6 +167,7 @@ type dgram struct {
 	sport  uint16
 	dport  uint16
 	data   []byte
+	ipid   uint16 // IPv4 identification (0: derived from the serial)
 	// model bookkeeping
 	opt  bool // acceptance was not mandatory (buffer pressure / read side being closed)
 	read bool // already returned by a Read
@@ -182,6 +186,9 @@ func (d *dgram) packets(cuts []int, order []int) (proto tcpip.NetworkProtocolNum
 		return ipv6.ProtocolNumber, [][]byte{codec.BuildIPv6(codec.IPv6Hdr{Src: d.src, Dst: d.dst, NextHeader: codec.ProtoUDP}, l4)}, 1
 	}
 	id := uint16(d.serial*7 + 1)
+	if d.ipid != 0 {
+		id = d.ipid
+	}
 	// sanitize the cut list: ascending multiples of 8 strictly inside l4
 	var cs []int
 	prev := 0
